@@ -478,14 +478,22 @@ func listedTests(root string, tags ...string) (string, *cmdResult) {
 	if r.code != 0 {
 		return "", &r
 	}
-	var out []string
+	// packages are tested in parallel: their blocks arrive in any order; the names of a package precede its "ok <pkg>" line
+	byPkg := map[string][]string{}
+	var cur []string
 	for _, l := range strings.Split(r.out, "\n") {
 		l = strings.TrimSpace(l)
 		if reListedTest.MatchString(l) {
-			out = append(out, l)
+			cur = append(cur, l)
 		} else if f := strings.Fields(l); len(f) >= 2 && (f[0] == "ok" || f[0] == "?") {
-			out = append(out, "-- "+f[1])
+			sort.Strings(cur)
+			byPkg[f[1]] = cur
+			cur = nil
 		}
+	}
+	var out []string
+	for _, pkg := range sortedKeys(byPkg) {
+		out = append(out, pkg+": "+strings.Join(byPkg[pkg], " "))
 	}
 	return strings.Join(out, "\n"), nil
 }
@@ -562,6 +570,10 @@ func (rs *runState) runC16Layout(idx int, lay c16Layout) *violationT {
 	// a file that is compiled with the co tag and uses the API but is NOT named *_co.go: not an input of the tool
 	files[pkgDir+"cotagged.go"] = "//go:build co\n\npackage " + pkgName + "\n\nimport . \"github.com/goghcrow/go-co\"\n\nfunc CoTagOnly(n int) Iter[int] {\n\tfor i := 0; i < n; i++ {\n\t\tYield(i)\n\t}\n\treturn nil\n}\n"
 	files[pkgDir+"shrink_co.go"] = shrinkLong
+	// hand-written iterators over the runtime API live in plain files (no co tag, no go-co import, only .../seq): the tool must
+	// neither rewrite nor re-print them (a plain non-test file and a plain test file)
+	files[pkgDir+"handseq.go"] = "package " + pkgName + "\n\nimport \"github.com/goghcrow/go-co/seq\"\n\n// HandCount is written by hand over the runtime API.\nfunc HandCount(n int) seq.Iterator[int] {\n\ti := 0\n\treturn seq.Start(seq.While(func() bool { return i < n }, seq.Delay(func() seq.Seq[int] {\n\t\ti++\n\t\treturn seq.Bind(i, seq.Normal[int])\n\t})))\n}\n"
+	files[pkgDir+"handseq_test.go"] = "package " + pkgName + "\n\nimport (\n\t\"testing\"\n\n\t\"github.com/goghcrow/go-co/seq\"\n)\n\nfunc TestHandCount(t *testing.T) {\n\tvar it seq.Iterator[int] = HandCount(3)\n\tsum := 0\n\tfor it.MoveNext() {\n\t\tsum += it.Current()\n\t}\n\tif sum != 6 {\n\t\tt.Fatalf(\"sum = %d\", sum)\n\t}\n}\n"
 	expected[pkgDir+"shrink.go"] = true
 	// directive comments on bystander declarations of a processed file (go:embed needs its directive to keep the value;
 	// the file also contains a generator literal, whose attached source comment makes the file carry a comment list)
@@ -569,6 +581,11 @@ func (rs *runState) runC16Layout(idx int, lay c16Layout) *violationT {
 	files[pkgDir+"embed_co.go"] = coHeader("package " + pkgName + "\n\nimport (\n\t_ \"crypto/md5\"\n\t_ \"crypto/sha1\"\n\t_ \"embed\"\n\t_ \"image/gif\"\n\n\t. \"github.com/goghcrow/go-co\"\n)\n\n//go:embed embed_data.txt\nvar EmbeddedData string\n\n// EmbedGen has a doc comment.\n//\n//go:noinline\nfunc EmbedGen(n int) Iter[string] {\n\tf := func() Iter[string] {\n\t\tYield(EmbeddedData)\n\t\treturn nil\n\t}\n\tfor i := 0; i < n; i++ {\n\t\tYieldFrom(f())\n\t}\n\treturn nil\n}\n")
 	files[pkgDir+"embed_test.go"] = "package " + pkgName + "\n\nimport \"testing\"\n\nfunc TestEmbeddedData(t *testing.T) {\n\tif EmbeddedData != \"embedded payload\\n\" {\n\t\tt.Fatalf(\"EmbeddedData = %q: the go:embed directive of a bystander declaration was lost\", EmbeddedData)\n\t}\n\tn := 0\n\tfor it := EmbedGen(2); it.MoveNext(); n++ {\n\t\tif it.Current() != EmbeddedData {\n\t\t\tt.Fatalf(\"EmbedGen yielded %q\", it.Current())\n\t\t}\n\t}\n\tif n != 2 {\n\t\tt.Fatalf(\"EmbedGen yielded %d values\", n)\n\t}\n}\n"
 	expected[pkgDir+"embed.go"] = true
+	// the same for a directive that sits on a spec of a parenthesised group, in a file whose only generator is a literal and
+	// that has no other directive
+	files[pkgDir+"embedgrp_co.go"] = coHeader("package " + pkgName + "\n\nimport (\n\t_ \"embed\"\n\n\t. \"github.com/goghcrow/go-co\"\n)\n\nvar (\n\t// GroupedData is filled in by the go command.\n\t//go:embed embed_data.txt\n\tGroupedData string\n\n\t//go:embed embed_data.txt\n\tGroupedBytes []byte\n)\n\n// GroupedWords is a generator literal.\nvar GroupedWords = func(n int) Iter[string] {\n\tfor i := 0; i < n; i++ {\n\t\tYield(GroupedData)\n\t}\n\treturn nil\n}\n")
+	files[pkgDir+"embedgrp_test.go"] = "package " + pkgName + "\n\nimport \"testing\"\n\nfunc TestGroupedData(t *testing.T) {\n\tif GroupedData != \"embedded payload\\n\" || string(GroupedBytes) != GroupedData {\n\t\tt.Fatalf(\"GroupedData = %q, GroupedBytes = %q: a go:embed directive inside a declaration group was lost\", GroupedData, GroupedBytes)\n\t}\n\tn := 0\n\tfor it := GroupedWords(2); it.MoveNext(); n++ {\n\t}\n\tif n != 2 {\n\t\tt.Fatalf(\"GroupedWords yielded %d values\", n)\n\t}\n}\n"
+	expected[pkgDir+"embedgrp.go"] = true
 	// an external test package (package <pkg>_test) with a generator of its own and a closure over a function of the
 	// package under test
 	importPath := mod
